@@ -65,19 +65,19 @@ Section Read.
     let c := g_cap H pair_hash empty_leaf block_hash seg_hash UB ueb_hash ser_ueb key f in
     exists ws,
       read_plan (N.of_nat (length ct)) segsize guess offset size = SegDone ws /\
-      forall chunks ok,
-        serve H H_eqb pair_hash truthy block_hash seg_hash UB ueb_hash parse_ueb dec c (node_init H c) ws script = (chunks, ok) ->
+      forall chunks res,
+        serve H H_eqb pair_hash truthy block_hash seg_hash UB ueb_hash parse_ueb dec c (node_init H c) ws script = (chunks, res) ->
         (exists rest, py_slice ct offset size = concat chunks ++ rest) /\
-        (ok = true -> concat chunks = py_slice ct offset size).
+        (res = None -> concat chunks = py_slice ct offset size).
   Proof.
     intros k n segsize guess offset size ct key script Hct Hk Hs Hm Hg f c.
     destruct (read_range_exact_ok ct segsize guess offset size Hct Hs Hg) as [ws [E1 [E2 [_ E4]]]].
-    exists ws. split; [exact E1|]. intros chunks ok Hsv.
+    exists ws. split; [exact E1|]. intros chunks res Hsv.
     pose proof (encode_file_wf enc k n segsize ct Hk Hs Hm) as Hwf. fold f in Hwf.
     assert (Hws : Forall (fun w => w_segnum w < d_num_segments (calculate_sizes (ef_size f) (ef_k f) (ef_segsize f))) ws).
     { eapply Forall_impl; [|exact E4]. intros w [Hw _]. exact Hw. }
     destruct (serve_prefix H H_eqb pair_hash truthy empty_leaf block_hash seg_hash UB ueb_hash parse_ueb dec ser_ueb
-                H_eqb_spec all_truthy_H pair_inj block_inj seg_inj ueb_inj parse_ser f key Hwf ws (node_init H c) script chunks ok
+                H_eqb_spec all_truthy_H pair_inj block_inj seg_inj ueb_inj parse_ser f key Hwf ws (node_init H c) script chunks res
                 (node_init_inv H pair_hash empty_leaf block_hash seg_hash UB ueb_hash ser_ueb f key) Hws Hsv) as [P1 P2].
     assert (Hext : apply_writes (gseg f) ws = py_slice ct offset size).
     { rewrite <- E2. apply apply_writes_ext. eapply Forall_impl; [|exact E4]. intros w [Hw _].
